@@ -145,6 +145,23 @@ static JVal protocol_unmarshal(const std::string& kind, bool comp, bool checked,
                 if (!fault && len <= (1u << 20)) { Guarded o(len); GUARDED_CALL(fault, embedded_pairing_wkdibe_params_marshal(o.p, &P.p, comp)); again.assign(o.p, o.p + len); }
             }
         }
+        // one object used three times: loaded with OTHER parameters (g and g1 exchanged: a valid object with a different pairing value), then
+        // offered a damaged copy of this buffer (validating load, rejected), then this buffer: what the object held before, and what it was
+        // left with by the rejected load, must not show in the result
+        if (!fault && ok && checked && rep >= 0 && (size_t) rep <= n && n > 1 + 2 * (comp ? 96u : 192u)) {
+            size_t g2len = comp ? 96 : 192;
+            std::vector<uint8_t> other(in.p, in.p + n), damaged(in.p, in.p + n);
+            for (size_t i = 0; i < g2len; i++) std::swap(other[1 + i], other[1 + g2len + i]);
+            damaged[n - 1] ^= 0x5a; damaged[n - 2] ^= 0xa5;
+            WkParams P3; memset(&P3.p, 0, sizeof P3.p); P3.alloc(rep); P3.p.l = rep;
+            bool f3 = false, oka = false, okd = true, okb = false; JVal r3 = JVal::obj();
+            { Guarded b1(n); memcpy(b1.p, other.data(), n); GUARDED_CALL(f3, oka = embedded_pairing_wkdibe_params_unmarshal(&P3.p, b1.p, comp, false)); }
+            { Guarded b2(n); memcpy(b2.p, damaged.data(), n); GUARDED_CALL(f3, okd = embedded_pairing_wkdibe_params_unmarshal(&P3.p, b2.p, comp, true)); }
+            { Guarded b3(n); memcpy(b3.p, in.p, n); GUARDED_CALL(f3, okb = embedded_pairing_wkdibe_params_unmarshal(&P3.p, b3.p, comp, true)); }
+            r3.set("fault", (long long) (f3 ? 1 : 0)); r3.set("loaded_other", (long long) (oka ? 1 : 0)); r3.set("damaged_accepted", (long long) (okd ? 1 : 0)); r3.set("ok", (long long) (okb ? 1 : 0));
+            if (!f3 && okb) r3.set("obj", dump_params(P3.p, rep));
+            r.set("route3", r3);
+        }
         if (!fault && rep2 >= 0 && (size_t) rep2 <= n && n >= 1) {
             WkParams P2; memset(&P2.p, 0, sizeof P2.p); P2.alloc(rep2);
             P2.p.l = rep2; P2.p.signatures = (in.p[0] == 0);
